@@ -52,10 +52,15 @@ var nearMisses = []string{
 
 var uriClasses = append([]string{
 	"absent", "reg-A", "reg-B-only", "glob-hit", "glob-miss", "glob-literal", "default-uri", "evil", "unparsable", "dup-reg-evil", "dup-evil-reg", "empty",
+	// a plainly registered URI that contains a glob metacharacter (? * [ ] \), with that character replaced by what a
+	// glob would match there: registered exact URIs are strings, never patterns
+	"meta-subst-A", "meta-subst-B",
 }, nearMisses...)
 
-var regKinds = []string{"a-exact", "a-glob", "a-globoff", "a-badglob-first", "a-badglob-last", "a-none", "a-odd", "a-wild"}
-var bKinds = []string{"b-exact", "b-glob"}
+var regKinds = []string{"a-exact", "a-glob", "a-globoff", "a-badglob-first", "a-badglob-last", "a-none", "a-odd", "a-wild", "a-meta", "a-meta-glob"}
+var bKinds = []string{"b-exact", "b-glob", "b-meta"}
+
+const globMeta = "?*[]\\"
 
 const ghostClient = "ghost"
 
@@ -78,8 +83,8 @@ func mk(id string, pl []string, globs bool, pg []string) *vclient.Client {
 // regs is the read-only description of every client registration (the oracle's view).
 var regs = map[string]*vclient.Client{
 	"a-exact":         mk("a-exact", []string{"https://a-exact.example/logged-out", "https://a-exact.example/bye?src=op", "https://a-exact.example:8443/out/"}, false, nil),
-	"a-glob":          mk("a-glob", []string{"https://a-glob.example/logged-out"}, true, []string{"https://a-glob.example/*/out", "https://*.a-glob.example/logged-out", "https://a-glob.example/u/?/[a-c]"}),
-	"a-globoff":       mk("a-globoff", []string{"https://a-globoff.example/logged-out"}, false, []string{"https://a-globoff.example/*/out", "*"}),
+	"a-glob":          mk("a-glob", []string{"https://a-glob.example/logged-out", "https://a-glob.example/done?tenant=1"}, true, []string{"https://a-glob.example/*/out", "https://*.a-glob.example/logged-out", "https://a-glob.example/u/?/[a-c]"}),
+	"a-globoff":       mk("a-globoff", []string{"https://a-globoff.example/logged-out", "https://a-globoff.example/done?tenant=1"}, false, []string{"https://a-globoff.example/*/out", "*"}),
 	"a-badglob-first": mk("a-badglob-first", []string{"https://a-badglob-first.example/logged-out"}, true, []string{"[", "https://a-badglob-first.example/*/out"}),
 	"a-badglob-last":  mk("a-badglob-last", []string{"https://a-badglob-last.example/logged-out"}, true, []string{"https://a-badglob-last.example/*/out", "https://a-badglob-last.example/x["}),
 	"a-none":          mk("a-none", nil, false, nil),
@@ -91,6 +96,15 @@ var regs = map[string]*vclient.Client{
 	"a-wild":  mk("a-wild", nil, true, []string{"*", "https://a-wild.example/**"}),
 	"b-exact": mk("b-exact", []string{"https://b-exact.example/logged-out"}, false, nil),
 	"b-glob":  mk("b-glob", nil, true, []string{"https://b-glob.example/*"}),
+	// exact registrations full of glob metacharacters: not opted in / opted in (with a harmless real glob)
+	"a-meta":      mk("a-meta", metaURIs("a-meta"), false, nil),
+	"a-meta-glob": mk("a-meta-glob", metaURIs("a-meta-glob"), true, []string{"https://a-meta-glob.example/real/*/out"}),
+	"b-meta":      mk("b-meta", metaURIs("b-meta"), false, nil),
+}
+
+func metaURIs(id string) []string {
+	h := "https://" + id + ".example"
+	return []string{h + "/logout?tenant=1", h + "/cb/*", h + "/t/[ab]/out", h + "/w\\x/out", h + "/s*t?u=1&v=[2]", h + "/plain"}
 }
 
 func cloneClient(t *vclient.Client) *vclient.Client {
@@ -144,6 +158,9 @@ func genCase(r *rand.Rand, idx int) *caseSpec {
 	cs.Round = x
 
 	cs.B = pick(r, bKinds...)
+	if cs.UClass == "meta-subst-B" {
+		cs.B = "b-meta" // enumerated, not left to chance
+	}
 	cs.Store = r.IntN(len(storeNames))
 	cs.Def = r.IntN(len(defaultURIs))
 	cs.Alg = r.IntN(2)
@@ -343,6 +360,59 @@ func mutate(r *rand.Rand, kind, b string) string {
 	return b + "x"
 }
 
+// metaSubst takes an exactly registered URI of c that contains a glob metacharacter and replaces one such
+// character by what a glob would match at that position (and by things it would not). The result is a
+// different string, hence not registered — unless it happens to be another registered URI or to match an
+// opted-in glob, which the oracle computes by itself.
+func metaSubst(r *rand.Rand, c *vclient.Client) ([]string, string) {
+	var cands []string
+	for _, u := range c.PostLogout {
+		if strings.ContainsAny(u, globMeta) {
+			cands = append(cands, u)
+		}
+	}
+	if len(cands) == 0 {
+		// nothing of the kind registered for this client: the same request shape against a foreign pattern
+		base := "https://" + c.ID + ".example/logout?tenant=1"
+		return []string{strings.Replace(base, "?", pick(r, "X", "#", "_"), 1)}, base
+	}
+	base := pick(r, cands...)
+	var pos []int
+	for i := 0; i < len(base); i++ {
+		if strings.IndexByte(globMeta, base[i]) >= 0 {
+			pos = append(pos, i)
+		}
+	}
+	for try := 0; try < 8; try++ {
+		i := pos[r.IntN(len(pos))]
+		var out string
+		switch base[i] {
+		case '?':
+			out = base[:i] + pick(r, "X", "#", "a", "_", "%", "&", ";", "/", "XY", "") + base[i+1:]
+		case '*':
+			out = base[:i] + pick(r, "attacker-chosen", "x.y", "a", "", "evil.example", "a/b", "**", "?") + base[i+1:]
+		case '[', ']':
+			lo, hi := strings.LastIndexByte(base[:i+1], '['), i+strings.IndexByte(base[i:], ']')
+			if lo < 0 || hi < i {
+				out = base[:i] + base[i+1:]
+				break
+			}
+			inner := base[lo+1 : hi]
+			rep := pick(r, "a", "b", "c", "2", inner, "")
+			if len(inner) > 0 && r.IntN(2) == 0 {
+				rep = string(inner[r.IntN(len(inner))])
+			}
+			out = base[:lo] + rep + base[hi+1:]
+		case '\\':
+			out = base[:i] + pick(r, "", "/", "\\\\") + base[i+1:]
+		}
+		if out != base {
+			return []string{out}, base
+		}
+	}
+	return []string{base + "x"}, base
+}
+
 var evilURIs = []string{
 	"https://evil.example/cb", "https://evil.example/logged-out", "javascript:alert(1)", "//evil.example/x", "data:text/html,<script>alert(1)</script>",
 	"evil.example", "https:evil.example", "/\\evil.example", "http://127.0.0.1/cb", "oddapp:evil", "https://op.verif.test.evil.example/logged-out",
@@ -405,6 +475,10 @@ func genURIs(r *rand.Rand, cs *caseSpec) ([]string, string) {
 		return []string{regA(), pick(r, evilURIs...)}, ""
 	case "dup-evil-reg":
 		return []string{pick(r, evilURIs...), regA()}, ""
+	case "meta-subst-A":
+		return metaSubst(r, a)
+	case "meta-subst-B":
+		return metaSubst(r, b)
 	}
 	// near misses of something registered for A
 	bases := hierBases(a)
